@@ -1,5 +1,81 @@
-From Coq Require Import ZArith NArith List.
-From BHS Require Import Work Store Chain SyncNode.
-Theorem C06_placeholder : forall cps h, least_above cps h = find (fun c => Z.ltb h (fst c)) cps.
-Proof. reflexivity. Qed.
-Print Assumptions C06_placeholder.
+(* C06 - Sync converges on the best chain peers offer, in every configuration.
+   Only the property theorems; each is closed by `exact`.
+
+   Models: BHS.SyncNode (conformant node, locator, cursors), BHS.SyncDefault (SyncManager + request filter),
+   BHS.SyncExp (experimental peer), BHS.SyncSys (closed system: engine + nodes + messages in flight + script),
+   ingestion = BHS.Chain.add (C01).  Spec oracle on the implementation's outputs: BHS.SyncSpec.spec_converged.
+
+   FULL STATEMENT (not provable for the code as it is - see the three `_refuted` theorems, known findings):
+     for every configuration (checkpoints on/off, any consistent list), every set of conformant peers of which one honest
+     peer stays reachable, every schedule, fault sequence, announcement pattern and both engines, the system reaches a
+     quiescent state whose store holds the honest peer's best chain and whose tip carries the greatest work on offer.
+   PROVED:
+     C06_catchup_linear        default engine, checkpoints enabled, ONE honest peer, the store's longest chain a prefix of
+                               its chain C (any Valid store, stale forks and orphans allowed), any sorted checkpoint list
+                               consistent with C (none, one, several, one at the tip), any reply cap >= 1, enough fuel
+                               (|C| - k + 1 deliveries): quiescent, longest chain = C, tip = last C; every step sends exactly
+                               one request (never filtered), locator head = the tip, stop = next checkpoint / zero.
+     C06_prefix_store_good     genesis + first k headers of C is such a store.
+     C06_multi_partial         safety half for ALL schedules / peers / choices (see SyncMultiProofs); convergence for
+                               several peers, stalls and disconnects is NOT proved.
+   REFUTED (vm_compute witnesses on the faithful model; the real code agrees on the same scenarios, corpus/C06):
+     C06_disable_checkpoints_refuted, C06_single_peer_announce_refuted, C06_lagging_sync_peer_refuted. *)
+From Coq Require Import ZArith NArith List Bool.
+From BHS Require Import Work Store Chain ChainSpec ChainAdd ChainMain SyncNode SyncDefault SyncExp SyncSys SyncSpec
+     SyncC07Proofs SyncC06Proofs.
+Import ListNotations.
+Open Scope Z_scope.
+
+Theorem C06_catchup_linear : forall cfg gid C p cap res k s hints fuel,
+  c_disable cfg = false -> good_chain (c_forb cfg) gid C -> cps_ok gid C (c_cps cfg) -> sorted (c_cps cfg) ->
+  (1 <= cap)%nat -> (k <= length C)%nat -> Good gid C k s -> (length C - k + 1 <= fuel)%nat ->
+  exists y1 t1 y2 t2,
+    y_cmd (y_init cfg gid s [(p, node0 C cap res)] hints) (CConnect p) = (y1, t1) /\
+    y_cmd y1 (CRun fuel) = (y2, t2) /\
+    quiescent y2 = true /\
+    (exists tip t, Inv2 (d_store (y_eng y2)) tip /\ ids (chain (d_store (y_eng y2)) tip) = rev (cids gid C) /\
+                   tipB (d_store (y_eng y2)) = Some t /\ id t = last (cids gid C) gid) /\
+    (exists ev es st, t1 = [(ev, es, st)] /\ entry_ok p (EHeaders p [], es, st) /\ es <> []) /\
+    Forall (entry_ok p) t2.
+Proof. exact catchup_linear. Qed.
+
+Theorem C06_prefix_store_good : forall f gid gpl C, good_chain f gid C -> forall k, (k <= length C)%nat ->
+  Good gid C k (run_from f (init gid gpl) (firstn k C)).
+Proof. exact good_prefix. Qed.
+
+(* the hypotheses are satisfiable *)
+Theorem C06_catchup_example :
+  good_chain (c_forb exCfg) 1 exC /\ cps_ok 1 exC (c_cps exCfg) /\ sorted (c_cps exCfg) /\
+  Good 1 exC 1 (run_from (c_forb exCfg) (init 1 (ex_pl 486604799)) (firstn 1 exC)).
+Proof. exact ex_catchup_hyps. Qed.
+
+Theorem C06_disable_checkpoints_refuted :
+  let cfg := {| c_cps := []; c_disable := true; c_forb := []; c_now := 0 |} in
+  let y0 := y_init cfg 1 (init 1 (ex_pl 486604799)) [(7%N, node0 exC 2000 [])] [] in
+  let '(y, ts) := y_run y0 [CConnect 7; CRun 20] in
+  good_chain [] 1 exC /\ final_tip y = Some 1%N /\ In (Disconnect 7) (all_effs ts) /\ quiescent y = true.
+Proof. exact disable_checkpoints_refuted. Qed.
+
+Theorem C06_single_peer_announce_refuted :
+  let cfg := {| c_cps := [(2, 3%N)]; c_disable := false; c_forb := []; c_now := 1800000000 |} in
+  let y0 := y_init cfg 1 (init 1 (ex_pl 486604799)) [(7%N, node0 (firstn 2 exNew) 2000 (skipn 2 exNew))] [] in
+  let '(y, ts) := y_run y0 [CConnect 7; CRun 20; CAnnounce 7 1 true; CRun 20] in
+  final_tip y = Some 3%N /\ quiescent y = true /\
+  (exists n, aget 7%N (y_nodes y) = Some n /\ map s_id (n_chain n) = [2; 3; 4]%N /\ n_open n = true) /\
+  nth 3 ts [] <> [] /\ concat (map (fun x => snd (fst x)) (nth 3 ts [])) = [].
+Proof. exact single_peer_announce_refuted. Qed.
+
+Theorem C06_lagging_sync_peer_refuted :
+  let cfg := {| c_cps := [(1, 2%N)]; c_disable := false; c_forb := []; c_now := 1800000000 |} in
+  let y0 := y_init cfg 1 (init 1 (ex_pl 486604799)) [(7%N, node0 (firstn 2 exC) 2000 []); (8%N, node0 exC 2000 [])] [] in
+  let '(y, ts) := y_run y0 [CConnect 7; CRun 20; CConnect 8; CRun 20; CTick true; CRun 20] in
+  final_tip y = Some 3%N /\ quiescent y = true /\ d_sync (y_eng y) = Some 7%N /\
+  (exists n, aget 8%N (y_nodes y) = Some n /\ n_open n = true /\ length (n_chain n) = 5%nat).
+Proof. exact lagging_sync_peer_refuted. Qed.
+
+Print Assumptions C06_catchup_linear.
+Print Assumptions C06_prefix_store_good.
+Print Assumptions C06_catchup_example.
+Print Assumptions C06_disable_checkpoints_refuted.
+Print Assumptions C06_single_peer_announce_refuted.
+Print Assumptions C06_lagging_sync_peer_refuted.
